@@ -155,10 +155,13 @@ func (a *Agent) Start(p pool.Pool) error {
 	running = true
 	go func() {
 		err := a.serveUpdates(p)
-		// However the loop ended (Stop, or a failed update), it is over.
-		a.mu.Lock()
-		a.started = false
-		a.mu.Unlock()
+		if err != nil {
+			// The loop died on a failed update (when it is stopped it clears
+			// the flag itself, and a new Start may already have set it again).
+			a.mu.Lock()
+			a.started = false
+			a.mu.Unlock()
+		}
 		a.waitCh <- err
 	}()
 	return nil
